@@ -13,7 +13,7 @@ cat > "$T/in.json" <<'EOF'
 EOF
 st=0
 for opts in "--color-only" "--color-only --grep-output-type classic"; do
-  "$DELTA" --no-gitconfig --paging never $opts < "$T/in.json" > "$T/out" 2> "$T/err"; rc=$?
+  "$DELTA" --no-gitconfig --paging never --dark $opts < "$T/in.json" > "$T/out" 2> "$T/err"; rc=$?
   if [ $rc -ne 0 ]; then echo "VIOLATED ($opts): exit status $rc: $(grep -m1 -i 'panicked\|mismatch' "$T/err" | head -c 200)"; st=1; fi
   grep -q 'foo' "$T/out" || { echo "VIOLATED ($opts): the hit is not shown"; st=1; }
 done
